@@ -5,6 +5,7 @@
 -/
 import MicroHttp.ConnSpec
 import MicroHttp.Server
+import MicroHttp.Proofs.Limits
 namespace MicroHttp.C04
 open MicroHttp
 variable {RL H : Type}
@@ -13,18 +14,18 @@ variable {RL H : Type}
     exceeds the limit, and then with the size-limit error reporting (limit, declared). -/
 theorem payload_iff (P : Params RL H) (L : Nat) (r : Req RL H) :
     (∃ e, processLine P L (.hdrs r) [] = .error e) ↔ P.clen r.headers > L := by
-  sorry
+  exact payload_iff' P L r
 
 theorem payload_error (P : Params RL H) (L : Nat) (r : Req RL H) (h : P.clen r.headers > L) :
     processLine P L (.hdrs r) [] = .error (.sizeLimitExceeded L (P.clen r.headers)) := by
-  sorry
+  exact payload_error' P L r h
 
 /-- … as soon as the header block is complete: the two bytes CR LF of the blank line suffice, no body
     byte is needed (and none is looked at: `feed` stops at the error). -/
 theorem payload_rejected_early (P : Params RL H) (hB : 1 < P.B) (L : Nat) (r : Req RL H)
     (h : P.clen r.headers > L) (rest : List Byte) :
     feed P L ⟨.hdrs r, []⟩ (CRLF ++ rest) = ([], .error (.sizeLimitExceeded L (P.clen r.headers))) := by
-  sorry
+  exact payload_rejected_early' P hB L r h rest
 
 /-- A phase is consistent with limit `L`: a body being read belongs to a request that declared
     exactly got + need bytes, at most `L`. -/
@@ -43,7 +44,7 @@ def BodyOK (P : Params RL H) (L : Nat) (r : Req RL H) : Prop :=
 theorem body_bound (P : Params RL H) (L : Nat) (a : Abs RL H) (ha : PhaseOK P L a.phase) (bs : List Byte)
     (outs : List (Out RL H)) (res : Except ReqErr (Abs RL H)) (hf : feed P L a bs = (outs, res)) :
     (∀ r ∈ delivers outs, BodyOK P L r) ∧ (∀ a', res = .ok a' → PhaseOK P L a'.phase) := by
-  sorry
+  exact body_bound' P L a ha bs outs res hf
 
 /-- A line of at most B bytes including its CR LF is processed as exactly that line … -/
 theorem line_within (P : Params RL H) (L : Nat) (ph : Phase RL H) (hph : ∀ r g n, ph ≠ .body r g n)
@@ -52,7 +53,7 @@ theorem line_within (P : Params RL H) (L : Nat) (ph : Phase RL H) (hph : ∀ r g
       match processLine P L ph l with
       | .error e => ([], .error e)
       | .ok (a', o) => let (os, r) := feed P L a' rest; (o ++ os, r) := by
-  sorry
+  exact line_within' P L ph hph l rest hl hlen
 
 /-- … and a longer one is rejected for its length (request line: `InvalidRequest`; header line:
     the header size error), whatever follows. -/
@@ -60,17 +61,17 @@ theorem line_too_long (P : Params RL H) (hB : 0 < P.B) (L : Nat) (ph : Phase RL 
     (hph : ∀ r g n, ph ≠ .body r g n)
     (l rest : List Byte) (hl : find CRLF l = none) (hlen : l.length + 2 > P.B) :
     feed P L ⟨ph, []⟩ (l ++ CRLF ++ rest) = ([], .error (tooLong P ph ((l ++ CRLF).take P.B))) := by
-  sorry
+  exact line_too_long' P hB L ph hph l rest hl hlen
 
 /-- The server gives every accepted connection the limit configured at that moment. -/
 theorem server_limit (s : Srv) (newFd : Nat) (hcap : s.conns.length ≠ MAX_CONNECTIONS) :
     ∃ c, findClient (handleEv s (.listener newFd)).1.conns newFd = some c ∧ c.conn.limit = s.limit := by
-  sorry
+  exact server_limit' s newFd hcap
 
 /-- The 400 body reports both numbers. -/
 theorem bad_request_reports (L n : Nat) :
     decimal n <:+: badRequestBody (.sizeLimitExceeded L n) ∧ decimal L <:+: badRequestBody (.sizeLimitExceeded L n) := by
-  sorry
+  exact bad_request_reports' L n
 
 example : ∃ e, processLine P0 5 (.hdrs ⟨⟨.put, [0x2F], .http11⟩, { contentLength := 6 }, none, []⟩) [] = .error e :=
   ⟨_, rfl⟩
